@@ -23,6 +23,9 @@ def run(chk):
     r13a(chk, 'R02.b')
     r13b(chk, 'R02.b2')
     r02c(chk)
+    from .c18 import r18h
+
+    r18h(chk, 'R02.e')
     from .c16 import r16b
 
     r16b(chk, 'R02.d')
